@@ -538,3 +538,19 @@ func returnsOf(fn *ssa.Function) []*ssa.Return {
 	}
 	return out
 }
+
+// guardsOnEdge: branch decisions that hold whenever control flows along from->to.
+func guardsOnEdge(from, to *ssa.BasicBlock) []guard {
+	gs := guardsOf(from)
+	if i := blockIf(from); i != nil {
+		v, t, f := condOf(i)
+		if t != f {
+			if to == t {
+				gs = append(gs, guard{v, true, i})
+			} else if to == f {
+				gs = append(gs, guard{v, false, i})
+			}
+		}
+	}
+	return gs
+}
